@@ -365,6 +365,8 @@ distinct_nontrivial counts distinct (backend, outer, inner, operand position) co
             let d = DIALECTS[(i % 3) as usize];
             let op = CHAIN_OPS[((i / 3) % CHAIN_OPS.len() as u64) as usize];
             let len = 2 + (i / (3 * CHAIN_OPS.len() as u64)) as usize;
+            // the fully parenthesised reference text of a longer chain overflows the SQLite parser's stack (engine limit)
+            let len = if d == Dialect::Sqlite { 2 + (len - 2) % 79 } else { len };
             let nested_at = 1 + (len * 7 + 3) % (len - 1);
             let mut e = E::Col(0);
             for k in 1..len {
